@@ -420,7 +420,21 @@ func c12Client(c *Ctx) {
 		}
 		c.Check(ok, "C12.D5-client-workflow", k2+" › lookup by hash(vk), decrypt with vk", fm.SSA.Pos(), "FindMetadata(SHA256(vk)) then DecryptMetadata(result, vk) on err == nil", "metadata not looked up by the hash of the value key / not decrypted with the value key")
 	}
-	c.Floor("C12.D5-client-workflow", 7)
+	// what the store answers is what is decrypted: the HTTP store client hands on everything read from the response
+	// body itself (a capped or wrapped read truncates large encrypted metadata and the result is silently skipped)
+	nRA := 0
+	for _, f := range c.Funcs("find/client") {
+		recv := f.SSA.Signature.Recv()
+		if recv == nil || !strings.Contains(c.short(recv.Type().String()), "dhstoreHTTP") {
+			continue
+		}
+		for _, cs := range c.Calls(f.SSA, Call("io.ReadAll")) {
+			nRA++
+			_, whole := Match(Field("Body", Any()), cs.X.Args[0])
+			c.Check(whole, "C12.D5-client-workflow", f.Name+" › reads the whole response body", cs.In.Pos(), "io.ReadAll(resp.Body)", "the store client does not read the response body itself to its end ("+abbreviate(cs.X.Args[0].String())+"): encrypted values larger than the cap come back truncated and the lookup silently returns fewer results than were indexed")
+		}
+	}
+	c.Floor("C12.D5-client-workflow", 9)
 }
 
 func c12ValueKey(c *Ctx) {
